@@ -122,6 +122,7 @@ func RunOneCapped(t *testing.T, prop string, seed uint64, replay []int, tier str
 			n := simnet.New()
 			simnet.Install(n)
 			simrt.ResetPtrOrder()
+			simrt.ResetGlobals()
 			e := &Env{T: t, C: cs, S: s, N: n, Tier: tier, Seed: seed, Keep: keep, Res: res, StepCap: stepCap}
 			defer func() {
 				if e.W != nil {
